@@ -46,6 +46,9 @@ func (e *Engine) execCall(fc *fnCtx, b *ssa.BasicBlock, st *State, c *ssa.CallCo
 	if bi, ok := c.Value.(*ssa.Builtin); ok {
 		return e.execBuiltin(fc, b, st, bi, c, args, pos, resT)
 	}
+	if fc.contract != nil && len(fc.contract.Asserts) > 0 && len(e.inlineStack) == 0 && instr != nil {
+		e.checkCallAsserts(fc, st, c, instr, pos)
+	}
 	var callee *ssa.Function
 	var free []Val
 	if sc := c.StaticCallee(); sc != nil {
@@ -577,4 +580,52 @@ func (e *Engine) designatorLocs(env *SpecEnv, d SExpr) []heapLoc {
 	}
 	e.specFail(env, "unsupported modifies designator "+specString(d))
 	return nil
+}
+
+// checkCallAsserts: `assert[call pkg.Func#k] e` clauses of the contract are obligations at the k-th call of that callee.
+func (e *Engine) checkCallAsserts(fc *fnCtx, st *State, c *ssa.CallCommon, instr *ssa.Call, pos token.Pos) {
+	sc := c.StaticCallee()
+	if sc == nil {
+		return
+	}
+	name := sc.String()
+	if o := sc.Origin(); o != nil {
+		name = o.String()
+	}
+	name = strings.ReplaceAll(name, repoMod+"/", "")
+	if fc.callOcc == nil {
+		fc.callOcc = map[*ssa.Call]int{}
+		counts := map[string]int{}
+		for _, b := range fc.fn.Blocks {
+			for _, ins := range b.Instrs {
+				if call, ok := ins.(*ssa.Call); ok {
+					if f := call.Common().StaticCallee(); f != nil {
+						n := f.String()
+						if o := f.Origin(); o != nil {
+							n = o.String()
+						}
+						n = strings.ReplaceAll(n, repoMod+"/", "")
+						fc.callOcc[call] = counts[n]
+						counts[n]++
+					}
+				}
+			}
+		}
+	}
+	key := fmt.Sprintf("call %s#%d", name, fc.callOcc[instr])
+	for _, cl := range fc.contract.Asserts[key] {
+		env := fc.env.with(st)
+		env.fc = fc
+		env.vars = map[string]Val{}
+		for k, v := range fc.env.vars {
+			if _, isParam := fc.env.entryVals[k]; isParam {
+				if _, ok := e.localByName(env, k); ok {
+					continue
+				}
+			}
+			env.vars[k] = v
+		}
+		f := e.trSpec(env, cl.E).T
+		e.addObl(fc.fn, "assert", "["+key+"] "+cl.Text, pos, st.Reach, f)
+	}
 }
